@@ -53,7 +53,10 @@ UNDECIDED_MARKERS = ("Resource limit", "rlimit", "timed out", "while checking th
 def ensure_deps(repo, log=print):
     """rgb / unicode-width rlibs built with the Verus toolchain; cached by Cargo.lock hash."""
     import hashlib
-    lock = open(os.path.join(repo, "Cargo.lock"), "rb").read()
+    lp = os.path.join(repo, "Cargo.lock")
+    if not os.path.exists(lp):
+        lp = "/repo/Cargo.lock"   # snapshots of HEAD lack the (untracked) lock file
+    lock = open(lp, "rb").read()
     key = hashlib.sha256(lock).hexdigest()[:16]
     stamp = os.path.join(DEPS, "STAMP")
     if os.path.exists(stamp) and open(stamp).read().strip() == key and _dep("rgb") and _dep("unicode_width"):
@@ -63,6 +66,8 @@ def ensure_deps(repo, log=print):
     try:
         dst = os.path.join(tmp, "repo")
         shutil.copytree(repo, dst, ignore=shutil.ignore_patterns("target", ".git"))
+        if not os.path.exists(os.path.join(dst, "Cargo.lock")):
+            shutil.copy(lp, os.path.join(dst, "Cargo.lock"))
         env = dict(os.environ, CARGO_NET_OFFLINE="true", CARGO_TARGET_DIR=os.path.join(tmp, "target"))
         r = subprocess.run(["cargo", "+" + VERUS_TOOLCHAIN, "build", "--offline", "--lib"], cwd=dst, env=env,
                            stdout=subprocess.PIPE, stderr=subprocess.STDOUT, text=True)
